@@ -2,5 +2,5 @@ SPECIFICATION Spec
 CONSTANTS
   MaxDepth = 1
   Mint = FALSE
-INVARIANTS SandboxClosed
+INVARIANTS SandboxClosed HostSurvives
 CHECK_DEADLOCK FALSE
